@@ -1466,6 +1466,9 @@ func runCase(t fataler, sc *scenario) {
 
 func TestC17Lifecycle(t *testing.T) {
 	rapid.Check(t, func(t *rapid.T) {
+		if vstat.OverBudget() {
+			return
+		}
 		vstat.Case()
 		sc := genScenario(t)
 		for _, b := range sc.binds {
